@@ -1262,6 +1262,14 @@ def _fixture():
     return _FIXTURE
 
 
+def _drop_fixture():
+    """(worker processes of the check do not run atexit handlers)"""
+    import shutil
+    if _FIXTURE:
+        shutil.rmtree(str(_FIXTURE['dir'].parent), True)
+        _FIXTURE.clear()
+
+
 def _hosts():
     """Primitives that are true / false on the model.  Those with a component that is itself an expression
     (which the documented grammar restricts to a SIMPLE expression) come first: every shape of the stand-in
@@ -1470,19 +1478,23 @@ def _plans(host_name, tier):
         # (file / files matchers evaluate on a real directory: the doubled spaces, which do not depend on the
         # host type, are left to the other four host types in the quick tier)
         return [_Plan(2, 2, 1, doubled_spaces=host_name not in ('file-matcher', 'files-matcher'))]
-    on_a_directory = host_name in ('file-matcher', 'files-matcher')
-    plans = [_Plan(2, 2, 2, pairs=True, vectors='four'),
-             _Plan(2, 3, 0, pairs=not on_a_directory, doubled_spaces=not on_a_directory)]
+    plans = [_Plan(2, 2, 2, pairs=True, vectors='four')]
+    # (the descent is the same generic code for every host type; what differs between them -- the primitives with
+    # simple components -- is covered by the bound above: the wider and deeper bounds only for some of them)
+    if host_name in ('integer-matcher', 'line-matcher', 'string-transformer'):
+        plans.append(_Plan(2, 3, 0, pairs=True))
     if host_name == 'integer-matcher':
-        # (the descent is the same generic code for every host type: the deepest bound only for one of them)
         plans.append(_Plan(3, 2, 0, doubled_spaces=False, damaged=False))
     return plans
 
 
 def _standin_for(host_name):
     def run(ctx):
-        host = [h for h in _hosts() if h.name == host_name][0]
-        _run_standin(ctx, host, _plans(host_name, ctx.tier))
+        try:
+            host = [h for h in _hosts() if h.name == host_name][0]
+            _run_standin(ctx, host, _plans(host_name, ctx.tier))
+        finally:
+            _drop_fixture()
 
     return run
 
@@ -1683,6 +1695,13 @@ def _documented_simple_components(grammar):
 
 @M.check('simple-components')
 def _simple_components(ctx):
+    try:
+        _simple_components_(ctx)
+    finally:
+        _drop_fixture()
+
+
+def _simple_components_(ctx):
     hosts = {h.name: h for h in _hosts()}
     matchers, transformers = _grammar_modules()
     modules = dict(matchers, **transformers)
